@@ -402,9 +402,32 @@ fn radial_with(el: u8, az: f32, has_ref: bool, has_vel: bool, vcp: Option<u16>) 
 #[kani::stub(alloc::fmt::format, crate::stubs::fmt_format)]
 #[kani::stub(std::hash::RandomState::new, random_state_fixed)]
 fn c14_data_counts_and_vcp_set() {
-    let e0: u8 = kani::any();
-    let e1: u8 = kani::any();
-    let second_vol: bool = kani::any();
+    data_counts(None);
+}
+
+/// Concrete-label variants (the symbolic one decides grouping by a symbolic equality, which CBMC does
+/// not get through): same elevation number with a second VOL block, different numbers without.
+#[kani::proof]
+#[kani::unwind(40)]
+#[kani::stub(alloc::fmt::format, crate::stubs::fmt_format)]
+#[kani::stub(std::hash::RandomState::new, random_state_fixed)]
+fn c14_data_counts_same_elevation() {
+    data_counts(Some((3, 3, true)));
+}
+
+#[kani::proof]
+#[kani::unwind(40)]
+#[kani::stub(alloc::fmt::format, crate::stubs::fmt_format)]
+#[kani::stub(std::hash::RandomState::new, random_state_fixed)]
+fn c14_data_counts_two_elevations() {
+    data_counts(Some((3, 4, false)));
+}
+
+fn data_counts(fixed: Option<(u8, u8, bool)>) {
+    let (e0, e1, second_vol): (u8, u8, bool) = match fixed {
+        Some(t) => t,
+        None => (kani::any(), kani::any(), kani::any()),
+    };
     let mut msgs: Vec<Message> = Vec::with_capacity(2);
     msgs.push(message_unsegmented(header(31, 5_000), radial_with(e0, 0.0, true, true, Some(212))));
     msgs.push(message_unsegmented(header(31, 9_000), radial_with(e1, 1.0, true, false, if second_vol { Some(35) } else { None })));
@@ -433,8 +456,10 @@ fn c14_data_counts_and_vcp_set() {
     assert!(vs.len() == if second_vol { 2 } else { 1 }, "C14: VCP set size");
     assert!(vs.contains(&digital_radar_data::VolumeCoveragePattern::VCP212), "C14: VCP set misses a named pattern");
     assert!(vs.contains(&digital_radar_data::VolumeCoveragePattern::VCP35) == second_vol, "C14: VCP set membership");
-    wit!(e0 == e1 && second_vol);
-    wit!(e0 != e1 && !second_vol);
+    let w1 = if fixed.is_none() { e0 == e1 && second_vol } else { g.len() >= 1 };
+    let w2 = if fixed.is_none() { e0 != e1 && !second_vol } else { !vs.is_empty() };
+    wit!(w1);
+    wit!(w2);
     core::mem::forget(s);
     core::mem::forget(msgs);
 }
